@@ -84,6 +84,8 @@ fn main() {
         "e1-trace" => e1::cmd_trace(&args),
         #[cfg(feature = "e1")]
         "refproc" => c09::cmd_refproc(),
+        #[cfg(feature = "e1")]
+        "e1-ref" => e1::cmd_ref(&args),
         "e3" => e3::cmd_e3(&args),
         "c20" => c20::cmd_c20(&args),
         "replay" => cmd_replay(&args),
